@@ -401,7 +401,7 @@ func c01Extra(seed int64, tier string) ([]string, map[string]any) {
 }
 
 // member names are arbitrary strings: dots, slashes, blanks, the empty name, non-ASCII
-var c01OddKeys = []string{"a", "a.b", "b", "", "x.y.z", "example.com/owner", "a b", "a.b.c", "ключ", "straße", "a.", ".a"}
+var c01OddKeys = []string{"a", "a.b", "b", "", "x.y.z", "example.com/owner", "a b", "a.b.c", "ключ", "straße", "a.", ".a", "tags[]", "[]", "x[y]", "k[-1]", "n[1"}
 
 func c01Opts(r *rand.Rand) genOpts {
 	o := defaultOpts()
